@@ -226,6 +226,11 @@ def run_main(ctx):
             continue
         got = vec_of(out, dets)
         err = numpy.abs(got - want).max()
+        # the evolved object must still be the same kind of wavefunction (it is the input of the next step)
+        if (out.conserve_spin(), out.conserve_number()) != (w.conserve_spin(), w.conserve_number()):
+            ctx.disagree("evolve:result-loses-broken-symmetry-flags",
+                         f"{api} on a wavefunction with (conserve_spin, conserve_number) = {(w.conserve_spin(), w.conserve_number())} "
+                         f"returned an object with {(out.conserve_spin(), out.conserve_number())}", desc)
         ctx.case(("evolve", case) if t != 0 else None, sample=desc if case < 7 else None)
         ctx.count(f"route:{route}")
         ctx.count(f"api:{api}")
